@@ -141,7 +141,7 @@ META["C06"] = {
 
 META["C08"] = {
     "title": "Time and async sources emit exactly what and when they promise",
-    "rule": "cases = (source, take count, local|threads scheduler form, FIFO|any task order, due-stepping|late schedule, schedule seed). Sources: interval / interval_at with periods {1,7,100} ms and instants {past, now, +10ms, +250ms, +1h}; timer / timer_at with delays {0,1,7,100} ms and the same instants; from_future(_result) / from_stream(_result) over scripted futures/streams (ready at once, pending k polls self-woken or woken by the explorer, error at position i, empty). Due-stepping runs fire one due timer at a time and run tasks to quiescence (exact 'one period' oracle); late runs leave tasks waiting and jump the clock ('never earlier' oracle). A third of the timed cases (counter runs_with_idle_gap_before_first_poll) move the clock by {period/2, period-1ns, period, 3 periods+1ns, 3 ms} between subscribe() and the executor's first run, then due-step: the first interval / interval_at value is still due at max(subscription + period | the instant, first run). One stream case in six is long (20..100 items, all ready at once or with a rare pending; counter long_stream_runs). Non-trivial: >= 2 ticks observed, or the future/stream was pending at least once; distinct = hash(case). A share of the cases (counter runs_on_the_real_LocalPool) is built with the library's own `impl Scheduler for futures::executor::LocalSpawner` and run on the real futures LocalPool (run_until_stalled / try_run_one) instead of the harness executor.",
+    "rule": "cases = (source, take count, local|threads scheduler form, FIFO|any task order, due-stepping|late schedule, schedule seed). Sources: interval / interval_at with periods {1,7,100} ms and instants {past, now, +10ms, +250ms, +1h}; timer / timer_at with delays {0,1,7,100} ms and the same instants; from_future(_result) / from_stream(_result) over scripted futures/streams (ready at once, pending k polls self-woken or woken by the explorer, error at position i, empty). Due-stepping runs fire one due timer at a time and run tasks to quiescence (exact 'one period' oracle); late runs leave tasks waiting and jump the clock ('never earlier' oracle). A third of the timed cases (counter runs_with_idle_gap_before_first_poll) move the clock by {period/2, period-1ns, period, 3 periods+1ns, 3 ms} between subscribe() and the executor's first run, then due-step: the first interval / interval_at value is still due at max(subscription + period | the instant, first run). One stream case in six is long (20..100 items, all ready at once or with a rare pending; counter long_stream_runs). Non-trivial: >= 2 ticks observed, or the future/stream was pending at least once; distinct = hash(case). A share of the cases (counter runs_on_the_real_LocalPool) is built with the library's own `impl Scheduler for futures::executor::LocalSpawner` and run on the real futures LocalPool (run_until_stalled / try_run_one) instead of the harness executor. Thread part (scenario interval+workers): interval(1ms).take(k) with 1-2 worker threads running the periodic task and firing the virtual timers, optionally an unsubscribing thread (random/PCT, preemption-bounded systematic, free-running): values 0,1,2,... in order each once; without an unsubscribe exactly k values then completion once the workers ran until idle.",
     "assumptions": COMMON_ASSUME + [
         "the _at forms read the real Instant::now(): the instant is placed relative to the case's start and the real time the case took (plus 1 ms) is the tolerance on 'never earlier'; 'exactly' is only demanded of due-stepping runs on the virtual clock",
         "for an instant that has already passed the first interval_at tick may come anywhere between 'now' and one period later",
@@ -151,7 +151,7 @@ META["C08"] = {
     "level_text": "Exploration over sampled (source, schedule) pairs on a virtual clock; exact timing on due-stepping runs, lower bounds on all runs.",
     "level_note": "Trusted: the virtual clock behind NEW_TIMER_FN, the arena executor behind VerifScheduler, scripted futures/streams.",
     "design_ref": "DESIGN.md §5 C08",
-    "require": {"quick": {"sources_covered": 8, "runs_with_idle_gap_before_first_poll": 10000, "long_stream_runs": 2000}, "thorough": {"sources_covered": 8, "runs_with_idle_gap_before_first_poll": 500000, "long_stream_runs": 100000}},
+    "require": {"quick": {"sources_covered": 8, "runs_with_idle_gap_before_first_poll": 10000, "long_stream_runs": 2000, "thread_schedules": 2500, "free_parallel_runs": 700}, "thorough": {"sources_covered": 8, "runs_with_idle_gap_before_first_poll": 500000, "long_stream_runs": 100000, "thread_schedules": 100000, "free_parallel_runs": 50000}},
 }
 
 META["C07"] = {
@@ -212,7 +212,7 @@ META["C20"] = {
 
 META["C16"] = {
     "title": "Ending a stream early retires the producers that feed it",
-    "rule": "cases = (producer in interval(1|5 ms) / from_iter over a counting iterator capped at 1500 pulls / from_stream over an endless self-waking scripted stream, position main or secondary/notifier input of skip_until / take_until / sample / buffer / with_latest_from / merge / zip / combine_latest (hot main input emitting every 3 ms), or inner observable of flat_map / concat_map / merge_all(2) (hot outer emitting exactly one item, so that exactly one inner producer exists when the cutter fires), 0..n intermediate operators, cutter in take / first / first_or / element_at / take_while(_inclusive) / contains / all, scheduler form, task order). A sweep puts every catalogue operator (single-input, two-input with a cold other, flattening, scheduler-using, finalize, share) once in the middle position for every producer; a second sweep (counter ended_from_the_side_cases) ends the stream from the side - merge with of(1) or timer(2ms), take_until(of(1)) or take_until(timer(2ms)) - below an operator that forwards nothing at that point (skip_until(never), filter(false), filter_map(false), skip_while(true), skip(100000), ignore_elements, last, take_last, reduce, count, collect, skip_last(100000), sample(never), buffer(never)) for every producer and both scheduler forms; the rest are seeded random chains of depth <= 2 quick / <= 4 thorough. Every case runs on the virtual clock to a 200 ms horizon. A case counts (non-trivial) only if the cutter actually fired; distinct = hash(case).",
+    "rule": "cases = (producer in interval(1|5 ms) / from_iter over a counting iterator capped at 1500 pulls / from_stream over an endless self-waking scripted stream, position main or secondary/notifier input of skip_until / take_until / sample / buffer / with_latest_from / merge / zip / combine_latest (hot main input emitting every 3 ms), or inner observable of flat_map / concat_map / merge_all(2) (hot outer emitting exactly one item, so that exactly one inner producer exists when the cutter fires), 0..n intermediate operators, cutter in take / first / first_or / element_at / take_while(_inclusive) / contains / all, scheduler form, task order). A sweep puts every catalogue operator (single-input, two-input with a cold other, flattening, scheduler-using, finalize, share) once in the middle position for every producer; a second sweep (counter ended_from_the_side_cases) ends the stream from the side - merge with of(1) or timer(2ms), take_until(of(1)) or take_until(timer(2ms)) - below an operator that forwards nothing at that point (skip_until(never), filter(false), filter_map(false), skip_while(true), skip(100000), ignore_elements, last, take_last, reduce, count, collect, skip_last(100000), sample(never), buffer(never)) for every producer and both scheduler forms; the rest are seeded random chains of depth <= 2 quick / <= 4 thorough. Every case runs on the virtual clock to a 200 ms horizon. Thread part (scenario interval+workers): interval(1ms).take(k) ticking on 1-2 worker threads, ended by take or by an unsubscribing thread; after everything ran until idle no scheduled task and no virtual timer may be left (run-until-idle terminates). A case counts (non-trivial) only if the cutter actually fired; distinct = hash(case).",
     "assumptions": COMMON_ASSUME + [
         "retired means, measured after the subscriber saw the cutter's terminal: no tick of the producer later than one period after it, and no pending timer / live task at the horizon (interval); at most one more pull (from_iter); at most two more polls and no live task (from_stream)",
         "take(0) is not used as a cutter",
@@ -221,7 +221,7 @@ META["C16"] = {
     "level_text": "Exploration: operator sweep in the middle position, every two-input operator with the producer as secondary input, plus random chains.",
     "level_note": "Trusted: virtual clock and arena executor accounting (live timers are exact: a dropped timer future unregisters itself).",
     "design_ref": "DESIGN.md §5 C16",
-    "require": {"quick": {"middle_operators_covered": 45, "positions_covered": 12, "cutters_covered": 8, "ended_from_the_side_cases": 400}, "thorough": {"middle_operators_covered": 45, "positions_covered": 12, "ended_from_the_side_cases": 400}},
+    "require": {"quick": {"middle_operators_covered": 45, "positions_covered": 12, "cutters_covered": 8, "ended_from_the_side_cases": 400, "thread_schedules": 2500, "free_parallel_runs": 700}, "thorough": {"middle_operators_covered": 45, "positions_covered": 12, "ended_from_the_side_cases": 400, "thread_schedules": 100000, "free_parallel_runs": 50000}},
     "watchdog_s": {"quick": 400, "thorough": 5400},
 }
 
@@ -322,7 +322,7 @@ META["C10"] = {
     "level_text": "Exploration: preemption-bounded systematic enumeration (bound 1 quick, 2 thorough) on small scenarios of all 20 families plus sampled lock-level interleavings (uniform + PCT); logical deadlock detection is exact on every schedule run.",
     "level_note": "Trusted: baton scheduler (harness/src/conc.rs), the lock hook placement before MutArc::lock, probes.",
     "design_ref": "DESIGN.md §5 C10",
-    "require": {"quick": {"thread_scenarios_covered": 22, "distinct_thread_schedules": 8000, "systematic_scenarios": 40}, "thorough": {"thread_scenarios_covered": 22, "systematic_scenarios": 160}},
+    "require": {"quick": {"thread_scenarios_covered": 23, "distinct_thread_schedules": 8000, "systematic_scenarios": 40}, "thorough": {"thread_scenarios_covered": 23, "systematic_scenarios": 160}},
     "watchdog_s": {"quick": 600, "thorough": 7200},
 }
 
